@@ -26,8 +26,8 @@ func main() {
 		},
 		Components: map[string]string{
 			"decoders and encoders of circl listed in coverage.entry_points": "real",
-			"storage / transport medium": "stub: fault-injecting medium",
-			"membership oracle":          "model: independent subgroup / on-curve tests",
+			"storage / transport medium":                                     "stub: fault-injecting medium",
+			"membership oracle":                                              "model: independent subgroup / on-curve tests",
 		},
 		ProbeNames: []string{"accepted-after-fault:yes", "accepted-after-fault:no"},
 		Directed:   func(tier string) []any { return codec.Directed(tier, canon, true) },
